@@ -333,7 +333,8 @@ class _AsyncFileWriter(_UnicodeWriter[AnyStr]):
             await self._file.write(self.encode(data))
             self._queue.task_done()
 
-            if self._paused and self._queue.qsize() < _QUEUE_LOW_WATER:
+            if self._paused and self._write_task and \
+                    self._queue.qsize() < _QUEUE_LOW_WATER:
                 self._process.resume_feeding(self._datatype)
                 self._paused = False
 
@@ -613,7 +614,8 @@ class _StreamWriter(_UnicodeWriter[AnyStr]):
             await self._writer.drain()
             self._queue.task_done()
 
-            if self._paused and self._queue.qsize() < _QUEUE_LOW_WATER:
+            if self._paused and self._write_task and \
+                    self._queue.qsize() < _QUEUE_LOW_WATER:
                 self._process.resume_feeding(self._datatype)
                 self._paused = False
 
